@@ -90,10 +90,12 @@ Definition records_ok (thr : N) (rq : req) (sc : script) (wire_obs : N) (recs : 
 Record verdict := {
   in_scope : bool;        (* the script is inside the property's quantifier (no ErrAbortHandler, codes 200..999) *)
   spec_noescape : bool;   (* no panic left ServeHTTP *)
-  spec_500 : bool;        (* 500 + error text sent by Relay iff the handler panicked before any header *)
+  spec_500 : bool;        (* status 500 sent by Relay iff the handler panicked before any header; the property does
+                             not constrain the body of that answer *)
   spec_records : bool;    (* exactly BEG, [ERR pv], END (per threshold), all with the request's fields and id,
                              END carrying the status the client received *)
-  model_ok : bool
+  model_ok : bool;        (* escaped?, status on the wire, records: as the model computes them *)
+  model_body : bool       (* the body chunks too (a difference is DRIFT, e.g. a bare 500 without http.Error's text) *)
 }.
 
 Definition check_case (thr : N) (rq : req) (sc : script)
@@ -104,17 +106,18 @@ Definition check_case (thr : N) (rq : req) (sc : script)
      spec_noescape := negb scope || negb esc;
      spec_500 := negb scope || esc ||
        (if panics_before_header sc
-        then (wire_obs =? 500) && (negb body_seen || list_eqb N.eqb body_obs [err_chunk])
-        else negb (memN err_chunk body_obs) && (negb (wire_obs =? 500) || has_hdr 500 sc));
+        then wire_obs =? 500
+        else negb (wire_obs =? 500) || has_hdr 500 sc);
      spec_records := negb scope || esc || records_ok thr rq sc wire_obs recs;
      model_ok :=
        Bool.eqb (escaped r) esc
-       && (esc || ((wire r =? wire_obs) && (negb body_seen || list_eqb N.eqb (body r) body_obs)))
+       && (esc || (wire r =? wire_obs))
        (* a repeated WriteHeader is outside the property: which of the codes REQ_END carries is left open *)
-       && list_eqb (record_eqb_upto (set_once sc)) (records r) recs |}.
+       && list_eqb (record_eqb_upto (set_once sc)) (records r) recs;
+     model_body := esc || negb body_seen || list_eqb N.eqb (body r) body_obs |}.
 
 Definition spec_ok (v : verdict) : bool := spec_noescape v && spec_500 v && spec_records v.
-Definition verdict_ok (v : verdict) : bool := spec_ok v && model_ok v.
+Definition verdict_ok (v : verdict) : bool := spec_ok v && model_ok v && model_body v.
 
 (** constructors for the driver *)
 Definition mk_act (tag a b : N) : act :=
